@@ -86,6 +86,7 @@ type ReadSet struct {
 	Allowed []string
 	Props   []string
 	Line    int
+	WritesOnly bool // writeset: only stores (and escaping addresses) count
 }
 
 type Contracts struct {
@@ -205,8 +206,8 @@ func loadContracts(path string) (*Contracts, error) {
 			}
 			cs.ReadSets = append(cs.ReadSets, rs)
 			cur = nil
-		case "readset":
-			// readset <name> [props]: T.f only in f1, f2, ...
+		case "readset", "writeset":
+			// readset|writeset <name> [props]: T.f only in f1, f2, ...
 			k := strings.Index(rest, ":")
 			if k < 0 {
 				return nil, fail(fmt.Errorf("readset needs ':'"))
@@ -217,7 +218,7 @@ func loadContracts(path string) (*Contracts, error) {
 			if j < 0 {
 				return nil, fail(fmt.Errorf("readset: expected 'T.f only in f1, f2'"))
 			}
-			rs := &ReadSet{Name: head[0], Field: strings.TrimSpace(body[:j]), Allowed: splitNames(body[j+9:]), Line: l.no}
+			rs := &ReadSet{Name: head[0], Field: strings.TrimSpace(body[:j]), Allowed: splitNames(body[j+9:]), Line: l.no, WritesOnly: word == "writeset"}
 			for _, h := range head[1:] {
 				rs.Props = append(rs.Props, strings.Trim(h, "[],"))
 			}
